@@ -72,6 +72,9 @@ func treeDump(n *yqlib.ExpressionNode) string {
 	return sb.String()
 }
 
+// TreeOf dumps the parsed tree of an expression (debugging aid: `mc tree '<expr>'`).
+func TreeOf(expr string) string { t, _ := c09Tree(expr); return t }
+
 func c09Tree(expr string) (string, bool) {
 	n, err, pan := impl.Parse(expr)
 	if pan != nil {
